@@ -43,7 +43,7 @@ ALL_FEATURES = [
     'optional', 'default', 'ext', 'ext_groups', 'refs', 'recursion',
     'imports', 'own_tags', 'big_tags', 'class_tags', 'ext_implied',
     'components_of', 'big_sizes', 'nested_inline', 'top_tags',
-    'common_names'
+    'common_names', 'param'
 ]
 
 
@@ -130,6 +130,8 @@ class Gen(object):
                           types=[],       # [(name, node)]
                           values=[],      # [(name, int)]
                           imported=[],    # [(module, name)]
+                          templates=[],   # [(name, node)] parameterized
+                          imported_templates=[],   # [(module, name, node)]
                           index=index)
             self.modules.append(module)
             self.cur = module
@@ -147,6 +149,11 @@ class Gen(object):
                         module.imported.append(
                             (earlier.name, earlier.values[0][0]))
 
+                    for tname, tnode in earlier.templates:
+                        if rng.random() < 0.7:
+                            module.imported_templates.append(
+                                (earlier.name, tname, tnode))
+
             if self.has('int_valueref'):
                 for _ in range(rng.choice([1, 2])):
                     module.values.append(
@@ -163,6 +170,10 @@ class Gen(object):
                     vname, vvalue = rng.choice(earlier_values)
                     module.values.append(
                         (vname, vvalue + rng.choice([1, 3, 100, 1000])))
+
+            if self.has('param'):
+                for _ in range(rng.choice([1, 1, 2])):
+                    self.gen_template()
 
             n_types = self.n_types if index == n_modules - 1 else max(
                 2, self.n_types // 2)
@@ -307,6 +318,10 @@ class Gen(object):
         if allow_ref and self.has('refs') and self.visible_types():
             kinds.append((6, 'REF'))
 
+        if self.has('param') and self.visible_templates() \
+                and not getattr(self, 'in_template', False):
+            kinds.append((5 if top else 3, 'PARAM'))
+
         for _ in range(20):
             kind = weighted(rng, kinds)
             node = self.gen_kind(kind, depth)
@@ -355,6 +370,151 @@ class Gen(object):
             return self.gen_list(kind, depth)
         elif kind == 'REF':
             return self.gen_ref()
+        elif kind == 'PARAM':
+            return self.gen_instance(depth)
+
+    # -- X.683 parameterized types ------------------------------------------
+
+    def visible_templates(self):
+        return list(self.cur.templates) + [
+            (name, node) for _, name, node in self.cur.imported_templates]
+
+    def gen_template(self):
+        """Name{Dummy} ::= SEQUENCE / SET { ... members typed by Dummy ... }
+        or SEQUENCE OF.  The tagging and extensibility defaults that apply
+        are those of THIS module, wherever the template is instantiated."""
+
+        rng = self.rng
+        number = self.next()
+        name = 'Tm{}'.format(number)
+        dummy = 'Par{}'.format(number)
+        kind = rng.choice(['SEQUENCE', 'SEQUENCE', 'SET', 'SEQUENCE OF'])
+        self.in_template = True
+        self.cur_name = name
+        self.recursion_budget = 0
+        saved_features = self.f
+        # (The library's dummy substitution cannot walk extensible, MIN/MAX
+        # or single-value ranges: none inside a template.)
+        self.f = self.f - {'int_ext', 'int_minmax', 'int_valueref',
+                           'int_named', 'nested_inline'}
+
+        try:
+            if kind == 'SEQUENCE OF':
+                if rng.random() < 0.5:
+                    element = dummy
+                else:
+                    element = 'SEQUENCE {{ e{0} {1}, f{0} BOOLEAN OPTIONAL }}' \
+                        .format(number, dummy)
+
+                text = 'SEQUENCE OF {}'.format(element)
+            else:
+                count = rng.choice([1, 2, 3])
+                members = []
+                dummy_used = False
+                automatic = self.cur.tags == 'AUTOMATIC'
+                tagged = not automatic or rng.random() < 0.15
+
+                for index in range(count + 1):
+                    member_name = 'p{}x{}'.format(number, index)
+                    modifier = ''
+
+                    if index == 0 or rng.random() < 0.4:
+                        type_text = dummy
+                        dummy_used = True
+
+                        if index > 0 and self.has('optional') \
+                                and rng.random() < 0.4:
+                            modifier = ' OPTIONAL'
+                    else:
+                        for _ in range(10):
+                            node = self.gen_type(2, allow_ref=False)
+
+                            # (The library's dummy substitution cannot
+                            # walk MIN/MAX or single-value ranges.)
+                            if node.k != 'INTEGER' or '(' not in node.text \
+                                    or ('..' in node.text
+                                        and 'MIN' not in node.text
+                                        and 'MAX' not in node.text):
+                                break
+                        else:
+                            node = self.gen_integer(force_wide=True)
+
+                        type_text = node.text
+                        roll = rng.random()
+
+                        if self.has('optional') and roll < 0.3:
+                            modifier = ' OPTIONAL'
+                        elif self.has('default') and roll < 0.5:
+                            value_text = self.default_text(node)
+
+                            if value_text is not None:
+                                modifier = ' DEFAULT ' + value_text
+
+                    tag = '[{}] '.format(index) if tagged else ''
+                    members.append('{} {}{}{}'.format(member_name, tag,
+                                                      type_text, modifier))
+
+                if self.has('ext') and rng.random() < 0.3:
+                    members.append('...')
+
+                text = '{} {{ {} }}'.format(kind, ', '.join(members))
+        finally:
+            self.in_template = False
+            self.f = saved_features
+
+        node = Node(k=kind, dummy=dummy,
+                    text='{}{{{}}} ::= {}'.format(name, dummy, text))
+        self.cur.templates.append((name, node))
+
+    def gen_instance(self, depth):
+        rng = self.rng
+        name, template = rng.choice(self.visible_templates())
+        roll = rng.random()
+        actual = None
+        # References in an actual parameter are looked up by the library in
+        # the module of the template: only for templates of this module.
+        local = any(name == n for n, _ in self.cur.templates)
+        saved_features = self.f
+
+        if not local:
+            self.f = self.f - {'refs', 'components_of'}
+
+        try:
+            return self.gen_instance_of(name, template, roll, depth)
+        finally:
+            self.f = saved_features
+
+    def gen_instance_of(self, name, template, roll, depth):
+        rng = self.rng
+        actual = None
+
+        if roll < 0.25 and depth < self.max_depth:
+            # An inline constructed actual parameter (text of THIS module:
+            # its tagging default applies to it).
+            saved = self.in_set, getattr(self, 'in_template', False)
+            self.in_set = False
+            self.in_template = True     # no nested instances in there
+            actual = self.gen_members_type('SEQUENCE', self.max_depth)
+            self.in_set, self.in_template = saved
+        elif roll < 0.5 and self.has('refs') and self.visible_types():
+            actual = self.gen_ref()
+
+            if actual is not None and actual.recursive:
+                actual = None
+
+        if actual is None:
+            for _ in range(10):
+                actual = self.gen_kind(weighted(rng, self.simple_kinds()),
+                                       depth)
+
+                if actual is not None and not actual.zero:
+                    break
+            else:
+                actual = self.gen_integer(force_wide=True)
+
+        return Node(k='PARAM', text='{}{{{}}}'.format(name, actual.text),
+                    utags=frozenset([UNIVERSAL[template.k]]),
+                    zero=False, has_ext=True, tagged_top=False)
 
     def size_text(self, allow_zero=True):
         """Returns (text, lo, hi, fixed_zero)."""
@@ -469,6 +629,28 @@ class Gen(object):
         names = ['e{}'.format(self.next()) for _ in numbers]
         items = ['{}({})'.format(n, v) for n, v in zip(names, numbers)]
         ext = self.has('enum_ext') and rng.random() < 0.4
+        values = {}
+
+        own = dict(self.cur.values)
+
+        for vname, vvalue in self.visible_values():
+            # One name per number, one number per name (a local value
+            # shadows an imported one of the same name).
+            if own.get(vname, vvalue) == vvalue \
+                    and vname not in values.values():
+                values.setdefault(vvalue, vname)
+
+        if self.has('int_valueref') and values and rng.random() < 0.3:
+            # Numbers given as value references (the parser cannot number
+            # additions after those, so no extension marker then).
+            ext = False
+            chosen = sorted(rng.sample(sorted(values),
+                                       min(len(values), count)))
+            numbers = chosen
+            names = names[:len(chosen)]
+            items = ['{}({})'.format(n, values[v])
+                     for n, v in zip(names, chosen)]
+            count = len(chosen)
         add_names = []
 
         if ext:
@@ -682,9 +864,14 @@ class Gen(object):
         if has_ext:
             for _ in range(rng.choice([0, 1, 1, 2, 3])):
                 if self.has('ext_groups') and rng.random() < 0.4:
+                    # (The library does not instantiate parameterized types
+                    # inside [[ ]]: none are generated there.)
+                    saved = getattr(self, 'in_template', False)
+                    self.in_template = True
                     group = [self.gen_member(depth, in_addition=True,
                                              used=used)
                              for _ in range(rng.choice([1, 2, 3]))]
+                    self.in_template = saved
                     additions.append(group)
                 else:
                     additions.append(self.gen_member(depth, in_addition=True,
@@ -1070,11 +1257,14 @@ class Gen(object):
             header += ' ::= BEGIN'
             imports = ''
 
-            if module.imported:
+            if module.imported or module.imported_templates:
                 by_module = {}
 
                 for module_name, name in module.imported:
                     by_module.setdefault(module_name, []).append(name)
+
+                for module_name, name, _ in module.imported_templates:
+                    by_module.setdefault(module_name, []).append(name + '{}')
 
                 imports = 'IMPORTS ' + ' '.join(
                     '{} FROM {}'.format(', '.join(names), module_name)
@@ -1085,6 +1275,9 @@ class Gen(object):
             for name, value in module.values:
                 assignments.append([name,
                                     '{} INTEGER ::= {}'.format(name, value)])
+
+            for name, node in module.templates:
+                assignments.append([name, node.text])
 
             for name, node in module.types:
                 assignments.append([name,
